@@ -50,8 +50,7 @@ class Instrument(object):
         A range is a tuple of two Notes or note strings.
         """
         if isinstance(range[0], six.string_types):
-            range[0] = Note(range[0])
-            range[1] = Note(range[1])
+            range = [Note(range[0]), Note(range[1])]
         if not hasattr(range[0], "name"):
             raise UnexpectedObjectError(
                 "Unexpected object '%s'. " "Expecting a mingus.containers.Note object" % range[0]
